@@ -235,8 +235,8 @@ def main(argv):
     sweeps = [(1, 0, 256), (2, 0, 256), (3, 0, 256)] + ([(4, 0, 256)] if c.tier == "thorough" else [(4, 0xF0, 0xF8)])
     mism = []
     for k, lo, hi in sweeps:
-        for which, path in (("model", tpath), ("oracle", opath)):
-            if which == "oracle" and (k == 4 or table == otable):
+        for which, path in (("model" if table is not None else "strict-decoder", tpath), ("oracle", opath)):
+            if which == "oracle" and (k == 4 or table is None or table == otable):
                 continue   # identical tables: one run serves as correspondence and as oracle
             st, out, err = run_tool([impl, "SWEEP", path, str(k), "8", str(lo), str(hi)], timeout=3000)
             text = out.decode("utf-8", "replace").split("\n")
